@@ -83,6 +83,10 @@ def pyIndexO (O : Oracle) (v : V) (i : Int) : R V :=
       match kvs.find? (fun kv => O.eq kv.1 (V.int i)) with
       | some kv => .ok kv.2
       | none => if o == .counter then .ok (.int 0) else raisePy .keyError
+  | .leaf _ _ => do
+      -- an opaque sequence-like leaf (bytes, bytearray, ip network): index into its elements
+      let xs ← pyIterO O v
+      pyIndex (.coll .list xs) i
   | _ => pyIndex v i
 
 /-- Entry point / context: nailed = methods compiled on the class (mixin path), otherwise
